@@ -11,8 +11,8 @@ import proofgate
 from common import VERIF, seed_from_env, ensure_driver, run_driver_parallel, DriverError
 
 KNOWN = VERIF / "known_findings.json"
-REPLAYS = VERIF / "replays"
-EVIDENCE = VERIF / "evidence"
+REPLAYS = Path(os.environ.get("VERIF_REPLAY_DIR", VERIF / "replays"))
+EVIDENCE = Path(os.environ.get("VERIF_EVIDENCE_DIR", VERIF / "evidence"))
 CORPUS = VERIF / "corpus"
 
 TRUSTED_BASE = [
@@ -100,8 +100,15 @@ def known_match(prop, signature):
     return None
 
 
+def relpath(p):
+    try:
+        return p.relative_to(VERIF)
+    except ValueError:
+        return p
+
+
 def write_replay(prop, name, payload):
-    REPLAYS.mkdir(exist_ok=True)
+    REPLAYS.mkdir(parents=True, exist_ok=True)
     p = REPLAYS / f"{prop}_{name}.json"
     p.write_text(json.dumps(payload, indent=1, default=str))
     return p
@@ -219,7 +226,7 @@ def _main(check, tier, seed, replay, t0):
             pass
         p = write_replay(prop, "violation", {"property": prop, "kind": "property-predicate fails on the implementation",
                                               "signature": v.signature, "message": v.message, "case": case})
-        print(f"VIOLATION property={prop} replay={p.relative_to(VERIF)}")
+        print(f"VIOLATION property={prop} replay={relpath(p)}")
         print(f"  {v.signature}: {v.message}")
         exit_code = 1
     elif corr_rows or not gate["ok"]:
@@ -234,7 +241,7 @@ def _main(check, tier, seed, replay, t0):
         p = write_replay(prop, "unproved", {"property": prop,
                                              "kind": "theorem or correspondence no longer checks", **what,
                                              "case": corr_rows[0]["case"] if corr_rows else None})
-        print(f"VIOLATION property={prop} replay={p.relative_to(VERIF)} no-failing-input-found")
+        print(f"VIOLATION property={prop} replay={relpath(p)} no-failing-input-found")
         if not gate["ok"]:
             print("  proof gate: " + "; ".join(gate["problems"])[:600])
         if corr_rows:
@@ -274,7 +281,7 @@ def _main(check, tier, seed, replay, t0):
     }
     if "leanchecker" in gate:
         ev["coverage"]["leanchecker"] = gate["leanchecker"]
-    EVIDENCE.mkdir(exist_ok=True)
+    EVIDENCE.mkdir(parents=True, exist_ok=True)
     (EVIDENCE / f"{prop}.json").write_text(json.dumps(ev, indent=1, default=str) + "\n")
     if exit_code == 0:
         print(f"OK property={prop} tier={tier} seed={seed} theorems={gate['discharged']}/{gate['obligations']} "
